@@ -312,6 +312,78 @@ fn malformed_text(form: &str) -> &'static str {
     }
 }
 
+/// the program of a case of MC_DocComment (the same texts the doccomment family compiles)
+pub fn render(case: &Value) -> Option<Vec<String>> {
+    match case["fam"].as_str().unwrap_or("") {
+        "dedent" => Some(vec![render_positions(case["pos"].as_str().unwrap_or("struct"), &source_lines(&case["lines"], 0)).0]),
+        "tags" => Some(vec![render_positions(case["pos"].as_str().unwrap_or("op0"), &tag_lines(case)).0]),
+        "links" => Some(link_texts(case)),
+        "malformed" => {
+            let lines = vec![" Intro.".to_owned(), malformed_text(case["form"].as_str().unwrap_or("")).to_owned(), " More.".to_owned()];
+            Some(vec![render_positions(case["pos"].as_str().unwrap_or("struct"), &lines).0])
+        }
+        _ => None,
+    }
+}
+
+fn tag_lines(case: &Value) -> Vec<String> {
+    let mut lines: Vec<String> = Vec::new();
+    if case["intro"] == true {
+        lines.push(" Intro.".into());
+    }
+    let tags = case["tags"].as_array().cloned().unwrap_or_default();
+    for (j, t) in tags.iter().enumerate() {
+        let kind = t["t"].as_str().unwrap_or("");
+        let id = t["id"].as_str().unwrap_or("");
+        let (inl, _, _) = inline_text(t["inline"].as_str().unwrap_or("none"), j + 1);
+        match kind {
+            "param" => lines.push(format!(" @param {id}{inl}")),
+            "returns" => lines.push(if id.is_empty() { format!(" @returns{inl}") } else { format!(" @returns {id}{inl}") }),
+            _ => lines.push(format!(" @see {id}")),
+        }
+        if kind != "see" {
+            let ci = t["cont"].as_u64().unwrap_or(1) as usize;
+            lines.extend(source_lines(&case["conts"][ci - 1], (j + 1) * 10));
+        }
+    }
+    lines
+}
+
+fn link_spelled(it: &Value) -> String {
+    let segs: Vec<String> = it["target"].as_array().map(|a| a.iter().map(|s| s.as_str().unwrap_or("").to_owned()).collect()).unwrap_or_default();
+    format!("{}{}", if it["global"] == true { "::" } else { "" }, segs.join("::"))
+}
+
+fn link_pos(it: &Value) -> String {
+    it["pos"].as_array().map(|a| a.iter().map(|s| s.as_str().unwrap_or("")).collect::<Vec<_>>().join("::")).unwrap_or_default()
+}
+
+fn link_texts(case: &Value) -> Vec<String> {
+    let items = case["items"].as_array().cloned().unwrap_or_default();
+    // comment per position: overview links first, then @param messages, then @see
+    let mut texts = Vec::new();
+    for file in LINK_FILES {
+        let mut text = String::new();
+        for (sid, ind, line) in file.iter() {
+            if !sid.is_empty() {
+                for wh in ["link", "taglink", "see"] {
+                    for it in items.iter().filter(|it| link_pos(it) == *sid && it["where"] == wh) {
+                        let t = link_spelled(it);
+                        text.push_str(&match wh {
+                            "link" => format!("{ind}/// See {{@link {t}}} here.\n"),
+                            "taglink" => format!("{ind}/// @param p: about {{@link {t}}}\n"),
+                            _ => format!("{ind}/// @see {t}\n"),
+                        });
+                    }
+                }
+            }
+            text.push_str(&format!("{ind}{line}\n"));
+        }
+        texts.push(text);
+    }
+    texts
+}
+
 impl Family for DocComments {
     fn run(&mut self, case: &Value) -> Outcome {
         let fam = case["fam"].as_str().unwrap_or("");
@@ -355,25 +427,8 @@ impl Family for DocComments {
             "tags" => {
                 let pos = case["pos"].as_str().unwrap_or("op0");
                 let position = if pos == "struct" || pos == "enumerator" { pos } else { pos };
-                let mut lines: Vec<String> = Vec::new();
-                if case["intro"] == true {
-                    lines.push(" Intro.".into());
-                }
                 let tags = case["tags"].as_array().cloned().unwrap_or_default();
-                for (j, t) in tags.iter().enumerate() {
-                    let kind = t["t"].as_str().unwrap_or("");
-                    let id = t["id"].as_str().unwrap_or("");
-                    let (inl, _, _) = inline_text(t["inline"].as_str().unwrap_or("none"), j + 1);
-                    match kind {
-                        "param" => lines.push(format!(" @param {id}{inl}")),
-                        "returns" => lines.push(if id.is_empty() { format!(" @returns{inl}") } else { format!(" @returns {id}{inl}") }),
-                        _ => lines.push(format!(" @see {id}")),
-                    }
-                    if kind != "see" {
-                        let ci = t["cont"].as_u64().unwrap_or(1) as usize;
-                        lines.extend(source_lines(&case["conts"][ci - 1], (j + 1) * 10));
-                    }
-                }
+                let lines = tag_lines(case);
                 let (text, id) = render_positions(position, &lines);
                 let rendered = json!({"files": [text]});
                 let key = hash_str(&rendered.to_string());
@@ -470,34 +525,9 @@ impl Family for DocComments {
             }
             "links" => {
                 let items = case["items"].as_array().cloned().unwrap_or_default();
-                let spelled = |it: &Value| -> String {
-                    let segs: Vec<String> = it["target"].as_array().map(|a| a.iter().map(|s| s.as_str().unwrap_or("").to_owned()).collect()).unwrap_or_default();
-                    format!("{}{}", if it["global"] == true { "::" } else { "" }, segs.join("::"))
-                };
-                let pos_of = |it: &Value| -> String {
-                    it["pos"].as_array().map(|a| a.iter().map(|s| s.as_str().unwrap_or("")).collect::<Vec<_>>().join("::")).unwrap_or_default()
-                };
-                // comment per position: overview links first, then @param messages, then @see
-                let mut texts = Vec::new();
-                for file in LINK_FILES {
-                    let mut text = String::new();
-                    for (sid, ind, line) in file.iter() {
-                        if !sid.is_empty() {
-                            for wh in ["link", "taglink", "see"] {
-                                for it in items.iter().filter(|it| pos_of(it) == *sid && it["where"] == wh) {
-                                    let t = spelled(it);
-                                    text.push_str(&match wh {
-                                        "link" => format!("{ind}/// See {{@link {t}}} here.\n"),
-                                        "taglink" => format!("{ind}/// @param p: about {{@link {t}}}\n"),
-                                        _ => format!("{ind}/// @see {t}\n"),
-                                    });
-                                }
-                            }
-                        }
-                        text.push_str(&format!("{ind}{line}\n"));
-                    }
-                    texts.push(text);
-                }
+                let spelled = link_spelled;
+                let pos_of = link_pos;
+                let texts = link_texts(case);
                 let rendered = json!({"files": texts});
                 let key = hash_str(&rendered.to_string());
                 let c = compile(&texts);
